@@ -109,8 +109,9 @@ func Harness_C18_Compromise() {
 		// exact shares scaled to 10000: s = floor(10000*w/t); the float computation in the code may
 		// differ by one unit from the exact floor except where the share is exactly 0 or 10000
 		fs1, fs2 := 10000*w1[i]/t1, 10000*w2[i]/t2
-		ex1 := w1[i] == 0 || w1[i] == t1
-		ex2 := w2[i] == 0 || w2[i] == t2
+		pow2 := func(t int) bool { return t&(t-1) == 0 }
+		ex1 := w1[i] == 0 || w1[i] == t1 || pow2(t1) // w/t is exact in binary floating point
+		ex2 := w2[i] == 0 || w2[i] == t2 || pow2(t2)
 		cutW := int(10000 * cut) // truncation, over the reals
 		slack := func(exact bool) int {
 			if exact {
